@@ -37,7 +37,7 @@ def g_table(spec):
 
 MUTATIONS = ["identity", "retype", "origin", "orientation", "name", "dest_add", "dest_remove", "dest_replace",
              "unit", "colname", "colorder", "cell", "row_add", "row_remove", "col_add", "col_remove",
-             "missing_flavour", "empty_vs_full", "unrelated", "nontable", "missing_respell"]
+             "missing_flavour", "empty_vs_full", "unrelated", "nontable", "missing_respell", "strictness"]
 
 
 def mutate(rng, spec, mut):
@@ -45,6 +45,9 @@ def mutate(rng, spec, mut):
     cols = s["cols"]
     nrows = len(cols[0]["values"]) if cols else 0
     if mut == "identity" or mut == "origin":
+        return s
+    if mut == "strictness":
+        s["strict"] = False          # how the table was built, not what it holds
         return s
     if mut == "retype":
         for c in cols:
@@ -129,7 +132,7 @@ def mutate(rng, spec, mut):
 class C14(Prop):
     id = "C14"
     coq_header = "From PdV.Corr Require Import C14."
-    rule = ("pairs (t, mutate(t)) for 21 single-aspect mutations of random tables (all column kinds, 0..6 rows), "
+    rule = ("pairs (t, mutate(t)) for 22 single-aspect mutations of random tables (all column kinds, 0..6 rows), "
             "both argument orders, plus unrelated pairs and non-table operands; expected verdict recomputed from "
             "the specifications; non-trivial = tables with at least one column; distinct = distinct pairs")
     assumptions = [
